@@ -17,6 +17,7 @@ mod c09;
 mod c01;
 mod c10;
 mod c19;
+mod c19conc;
 mod ring;
 mod sched;
 
@@ -53,6 +54,10 @@ fn make(prop: &str) -> Option<Box<dyn Interp>> {
 
 fn main() {
     let prop = std::env::args().nth(1).unwrap_or_default();
+    if prop == "--bm-one" {
+        let rest: Vec<String> = std::env::args().skip(2).collect();
+        c19conc::bm_one(&rest);
+    }
     if prop == "--ring-one" {
         let rest: Vec<String> = std::env::args().skip(2).collect();
         ring::run_one(&rest);
